@@ -353,7 +353,7 @@ fn inject(rng: &mut Rng, doc: &mut RefDoc, version: AutosarVersion, class: &str,
             "unknown-version-label" => {
                 for (k, v) in doc.root.attrs.iter_mut() {
                     if k == "xsi:schemaLocation" {
-                        *v = format!("http://autosar.org/schema/r4.0 {}", rng.pick(&["AUTOSAR_9-9-9.xsd", "AUTOSAR_00099.xsd", "autosar.xsd", ""]));
+                        *v = format!("http://autosar.org/schema/r4.0 {}", rng.pick(&["AUTOSAR_9-9-9.xsd", "AUTOSAR_00099.xsd", "autosar.xsd", "", "AUTOSAR_4-3-1.xsd", "AUTOSAR_4-4-0.xsd", "AUTOSAR_4-5-0.xsd"]));
                     }
                 }
                 return true;
